@@ -489,6 +489,30 @@ class DataFrameSchema(Generic[TDataObject], BaseSchema):
         }
         return cast(Self, schema_copy)
 
+    def _unique_after(
+        self,
+        removed: Iterable[Any] = (),
+        renamed: Optional[Dict[Any, Any]] = None,
+    ):
+        """The joint uniqueness constraints of a schema whose columns were
+        renamed or removed: the names follow the renamed columns, and a
+        constraint over a removed column is dropped (the remaining columns
+        alone need not be unique)."""
+        if not self._unique:
+            return self._unique
+        removed = set(removed)
+        renamed = renamed or {}
+        nested = not all(isinstance(x, str) for x in self._unique)
+        groups = self._unique if nested else [self._unique]
+        kept = [
+            [renamed.get(name, name) for name in group]
+            for group in groups
+            if not removed.intersection(group)
+        ]
+        if nested:
+            return kept or None
+        return kept[0] if kept else None
+
     def remove_columns(self, cols_to_remove: List[str]) -> Self:
         """
         Removes columns from a :class:`~pandera.api.dataframe.container.DataFrameSchema`
@@ -551,6 +575,7 @@ class DataFrameSchema(Generic[TDataObject], BaseSchema):
             # a name may be listed more than once (as in DataFrame.drop)
             schema_copy.columns.pop(col, None)
 
+        schema_copy.unique = self._unique_after(removed=cols_to_remove)
         return cast(Self, schema_copy)
 
     def update_column(self, column_name: str, **kwargs) -> Self:
@@ -802,6 +827,7 @@ class DataFrameSchema(Generic[TDataObject], BaseSchema):
         }
 
         new_schema.columns = new_columns
+        new_schema.unique = self._unique_after(renamed=rename_dict)
         return cast(Self, new_schema)
 
     def select_columns(self, columns: List[Any]) -> Self:
@@ -864,6 +890,9 @@ class DataFrameSchema(Generic[TDataObject], BaseSchema):
             col_name: new_schema.columns[col_name] for col_name in columns
         }
 
+        new_schema.unique = self._unique_after(
+            removed=[x for x in new_schema.columns if x not in new_columns]
+        )
         new_schema.columns = new_columns
         return cast(Self, new_schema)
 
